@@ -705,7 +705,13 @@ def judge(before: M.Model, new_files: T.Dict[str, str], cmd: dict, via: str, res
             # target ("too compilicated").  "Unable to find" a file the reference sees in the target is not a refusal.
             shared_refusal = 'too compilicated' in log or 'too complicated' in log
             kept = sa & want
+            # "Unable to find" must be said about a file that stayed (a command naming one shared file -- refused as
+            # "too complicated" -- and one absent file logs both lines: the absent file's line explains nothing)
+            unfound_kept = any(f'Unable to find source {f}' in log or f'Unable to find extra file {f}' in log
+                               for f in cmd.get('sources', [])
+                               if json.dumps(os.path.normpath(os.path.join(rec.subdir, f))) in kept or json.dumps(f) in kept)
             if direct is None and op in ('src_rm', 'extra_files_rm') and 'Unable to find' in log and kept \
+                    and (unfound_kept or not shared_refusal) \
                     and set(la) == {x for x in lb if x not in want or x in kept}:
                 # known finding: the array literal that holds the file reaches the target along TWO dataflow paths
                 # (directly, and through a `var += ...` inside an if/foreach block): Rewriter.get_relto() gives up
